@@ -352,7 +352,7 @@ Section HHT1D.
        try_finish try_finish_env exn_matches exec_list
        prims_of table_lookup keys_are is_opaque0 range_handler range_val
        hht1d_prims hht1d_table
-       h_zeros h_len h_shape h_copy h_lt h_gt h_getitem h_last h_add h_nan h_store_nan h_digitize
+       h_zeros h_len h_shape h_copy h_array_float h_float h_lt h_gt h_getitem h_last h_add h_nan h_store_nan h_digitize
        h_col_select h_nansum h_power h_store_cell
        hht1d_names hht1d_env0 params_hilberthuang_1d mode_str
        hht1d_pre hht1d_for hht1d_post hht1d_inner hht1d_body
